@@ -157,16 +157,21 @@ def sizeL : ExprL → Nat
   | .cons e es => size e + sizeL es
 end
 
-/-- the expression a grammar denotes for a shell; `sp` is the source position recorded at the node
-that joins several call variants (positions carry no meaning) -/
-def meaningAt (sp : Span) (g : Grammar) (sh : Shell) : Expr :=
-  let calls := g.filterMap fun
+def callBodies (g : Grammar) : List Expr :=
+  g.filterMap fun
     | .call _ _ e => some e
     | _ => none
-  let top : Expr := match calls with
-    | [e] => e
-    | es => .alt (ExprL.ofList es) sp
-  let e := (distr top none).1
+
+/-- rule 1: the call variants are alternatives; `sp` is the source position recorded at the node that
+joins several call variants (positions carry no meaning) -/
+def topOf (sp : Span) (g : Grammar) : Expr :=
+  match callBodies g with
+  | [e] => e
+  | es => .alt (ExprL.ofList es) sp
+
+/-- the expression a grammar denotes for a shell, with position `sp` at the joining node -/
+def meaningAt (sp : Span) (g : Grammar) (sh : Shell) : Expr :=
+  let e := (distr (topOf sp g) none).1
   -- along one path of the expansion every definition is entered at most once (acyclic grammar), so
   -- the depth is bounded by the total size of the grammar; every level costs two units of fuel
   let total := g.foldl (fun n st => n + match st with | .call _ _ e => size e | .defn _ _ _ e => size e) 0
